@@ -226,3 +226,47 @@ def eq_decider(term, const_term, value):
             return value
         return None
     return decide
+
+
+def _atoms(t, out):
+    if t[0] in ('and', 'or'):
+        for x in t[1]:
+            _atoms(x, out)
+    elif t[0] == 'not':
+        _atoms(t[1], out)
+    elif t[0] == 'cond' and False:
+        pass
+    elif t[0] != 'const':
+        if t not in out:
+            out.append(t)
+
+
+def _beval(t, val):
+    if t[0] == 'and':
+        return all(_beval(x, val) for x in t[1])
+    if t[0] == 'or':
+        return any(_beval(x, val) for x in t[1])
+    if t[0] == 'not':
+        return not _beval(t[1], val)
+    if t[0] == 'const':
+        return bool(t[2])
+    return val[t]
+
+
+def entails(pc, goal, limit=14):
+    """the path condition implies the goal (a boolean term), deciding propositionally over their atoms; None when there are
+    too many atoms"""
+    from .sval import strip_ids, pc_term, norm_pc
+    import itertools
+    p = strip_ids(pc_term(norm_pc(tuple(pc))))
+    g = strip_ids(goal)
+    atoms = []
+    _atoms(p, atoms)
+    _atoms(g, atoms)
+    if len(atoms) > limit:
+        return None
+    for bits in itertools.product((False, True), repeat=len(atoms)):
+        val = dict(zip(atoms, bits))
+        if _beval(p, val) and not _beval(g, val):
+            return False
+    return True
